@@ -1673,7 +1673,7 @@ static int process_enum(fb_parser_t *P, fb_compound_type_t *ct)
         }
         if (!member->value.type && !first) {
             if (index.type == vt_uint) {
-                if (ct->type.st == fb_long && index.u == UINT64_MAX) {
+                if (ct->type.st == fb_ulong && index.u == UINT64_MAX) {
                     /* Not captured by range check. */
                     error_sym(P, sym, "64-bit unsigned int overflow");
                 }
@@ -1683,7 +1683,8 @@ static int process_enum(fb_parser_t *P, fb_compound_type_t *ct)
                     /* Not captured by range check. */
                     error_sym(P, sym, "64-bit signed int overflow");
                 }
-                index.i = index.i + 1;
+                /* Unsigned add: no signed overflow after the error above. */
+                index.i = (int64_t)((uint64_t)index.i + 1);
             } else if (index.type == vt_bool && !first) {
                 if (index.b == 1) {
                     error_sym(P, sym, "boolean overflow: cannot enumerate past true");
